@@ -254,7 +254,7 @@ reg('C18',
     deadline={'quick': 100, 'thorough': 900},
     level=MC,
     technique='bounded-exhaustive enumeration of (error code, text length, quote placement) on the real SYST:ERR? path (ASan), each response parsed by an independent IEEE 488.2 string reader',
-    rule={'quick': 'all 65536 codes without text; for every distinct description length and for a code without table entry: text lengths {0..8} u {B-6..B+6} u {300, 400} (B = text index where the 255-character limit falls) x every placement of 0..3 double quotes inside the windows [0,8) and [B-6,B+6) and of one single quote; malloc build and static-heap build (with and without a heap prefill that makes the text wrap); non-trivial = response that passed the reader (well-formed string, prefix of description;text, <= 255, cut as late as possible)',
+    rule={'quick': 'all 65536 codes without text; for every distinct description length and for a code without table entry: text lengths {0..8} u {B-6..B+6} u {300, 400} (B = text index where the 255-character limit falls) x every placement of 0..3 double quotes inside the windows [0,8) and [B-6,B+6) and of one single quote; malloc build and static-heap build (with and without a heap prefill that makes the text wrap); every history of <= 6 operations over {push a quoted text of 3/7/11/15/19 characters, SYST:ERR?} on heaps of 24/32/40 bytes (wrap-around, exact fit, reuse); non-trivial = response that passed the reader (well-formed string, prefix of description;text, <= 255, cut as late as possible)',
           'thorough': 'windows of +-10 around the limit; also the no-info build'},
     assumptions=['for an empty text both "description" and "description;" are accepted (the malloc build stores the empty string, the heap build stores nothing)',
                  'descriptions are taken from the LIST_OF_ERRORS X-macro, independently of SCPI_ErrorTranslate'],
